@@ -4,8 +4,13 @@ G: TLC enumerates byte strings (spec/LexStr.tla): all strings up to length 3 (qu
    all 65536 byte pairs, plus seeded longer strings.
 R: harness/cmd/lex c12 pushes every string through the real types.Escape/Unescape/EncodeName/DecodeName and records
    input / escaped / unescaped / encoded / decoded as byte sequences.
+   Text cases (code points chosen by the bytes of their UTF-16BE code units, BMP and surrogate pairs) also go through
+   types.EscapedUTF16String / Unescape / StringLiteralToString; the escaped forms are cut by the real object parser; name cases
+   (short alphabet strings and the '#' grammar family) are also written as dictionary key and as name value into a real PDF,
+   once inside an object stream and once as plain object, and read back.
 V: TLC judges every record against spec/Lex.tla (spec/LexStrTrace.tla): unescaped = input, EscapeOK(escaped) (balanced and
-   every parenthesis escaped), and for NUL-free inputs NameCharOK(encoded) and decoded = input."""
+   every parenthesis escaped), the parser's literal token = escaped form, and for NUL-free inputs NameCharOK(encoded),
+   decoded = input and name read back from the file = input."""
 import os, shutil
 import vlib, lexfamily as lf
 
@@ -33,13 +38,16 @@ def run(ctx):
     d = vlib.scratch_dir()
     try:
         if ctx.quick:
-            jobs = [("alpha24x3+bytes1", dict(Mode='"alpha+bytes1"', MinLen="0", MaxLen="3", AlphaN="24", NRand="300"))]
+            jobs = [("alpha24x3+bytes1+names+text", dict(Mode='"alpha+bytes1"', MinLen="0", MaxLen="3", AlphaN="24", NRand="300",
+                                                        Files="TRUE", FileMaxLen="2", TextLevel="1"))]
         else:
-            jobs = [("alpha29x3+bytes1", dict(Mode='"alpha+bytes1"', MinLen="0", MaxLen="3", AlphaN="29", NRand="3000"))]
+            jobs = [("alpha29x3+bytes1+names", dict(Mode='"alpha+bytes1"', MinLen="0", MaxLen="3", AlphaN="29", NRand="3000",
+                                                    Files="TRUE", FileMaxLen="3")),
+                    ("text", dict(Mode='"none"', TextLevel="2"))]
             jobs += [("alpha24x4-%d" % i, dict(Mode='"alpha"', MinLen="4", MaxLen="4", AlphaN="24", NRand="0", Slice=str(i), NSlices="8")) for i in range(8)]
             jobs += [("bytes2-%d" % i, dict(Mode='"bytes2"', Slice=str(i), NSlices="2")) for i in range(2)]
         classes = lf.Classes()
-        tot = dict(cases=0, distinct=0, nontrivial=0, validated=0, info=0)
+        tot = dict(cases=0, distinct=0, nontrivial=0, validated=0, info=0, text=0, file=0, objstm=0)
         samples = []
         allbad = []
 
@@ -55,9 +63,15 @@ def run(ctx):
             if summ["cases"] != n:
                 raise vlib.HarnessError("lex c12 consumed %d of %d cases" % (summ["cases"], n))
             jres, bad, info = lf.judge("LexStrTrace", "LexTrace.cfg", rec)
-            if jres.distinct != n + 1:
-                raise vlib.HarnessError("LexStrTrace stepped through %d of %d records" % (jres.distinct - 1, n))
-            first = vlib.read_ndjson(rec)[:1] if n < 50000 else []
+            if jres.distinct != summ["records"] + 1:
+                raise vlib.HarnessError("LexStrTrace stepped through %d of %d records" % (jres.distinct - 1, summ["records"]))
+            if summ["plain_in_objstm"] != 0 or (summ["file"] and summ["file_in_objstm"] == 0) or \
+                    (summ["file_in_objstm"] != summ["file"] // 2 and not any(b["rec"]["kind"] == "file" for b in bad)):
+                raise vlib.HarnessError("name carriers are not where the check claims: %s" % summ)
+            first = []
+            if summ["records"] < 60000:
+                rows = vlib.read_ndjson(rec)
+                first = rows[:1] + [r for r in rows if r["kind"] == "text"][:1] + [r for r in rows if r["kind"] == "file"][:1]
             os.unlink(cases)
             os.unlink(rec)
             return name, gres, jres, n, summ, bad, info, first
@@ -68,29 +82,59 @@ def run(ctx):
             tot["cases"] += n
             tot["distinct"] += summ["distinct"]
             tot["nontrivial"] += summ["nontrivial"]
-            tot["validated"] += n
+            tot["validated"] += summ["records"]
+            tot["text"] += summ["text"]
+            tot["file"] += summ["file"]
+            tot["objstm"] += summ["file_in_objstm"]
             tot["info"] += len(info)
             samples += first
             allbad.extend(bad)
-        # class = failed requirements + the smallest failing input of that kind (deterministic for a given defect)
+        # class = record kind (+ carrier) + failed requirements + the smallest failing input of that kind (deterministic for a given defect)
+        def ident(b):
+            r = b["rec"]
+            return r["cps"] if r["kind"] == "text" else r["inp"]
+
+        def cls(b):
+            r = b["rec"]
+            return r["kind"] + ("" if r["kind"] != "file" else ":%s:%s" % (r["via"], r["role"])) + "|" + _why(b)
+
         smallest = {}
         for b in allbad:
-            k = (len(b["rec"]["inp"]), b["rec"]["inp"])
-            if _why(b) not in smallest or k < smallest[_why(b)]:
-                smallest[_why(b)] = k
-        for b in sorted(allbad, key=lambda b: (len(b["rec"]["inp"]), b["rec"]["inp"])):
+            k = (len(ident(b)), ident(b))
+            if cls(b) not in smallest or k < smallest[cls(b)]:
+                smallest[cls(b)] = k
+        for b in sorted(allbad, key=lambda b: (len(ident(b)), ident(b))):
             r = b["rec"]
-            key = "%s|smallest=%s" % (_why(b), "-".join("%02x" % c for c in smallest[_why(b)][1]) or "empty")
-            classes.add(key, "%s: input %r escaped %r unescaped %r (errors %s/%s) encoded %r decoded %r (error %s)" % (
-                _why(b), lf.b2s(r["inp"]), lf.b2s(r["esc"]), lf.b2s(r["un"]), r["eerr"], r["uerr"],
-                lf.b2s(r["enc"]), lf.b2s(r["dec"]), r["derr"]), b, short=repr(lf.b2s(r["inp"])))
+            sm = smallest[cls(b)][1]
+            if r["kind"] == "text":
+                key = "%s|smallest=%s" % (cls(b), "-".join("U+%04X" % c for c in sm))
+                what = "%s: text %s: EscapedUTF16String %r, Unescape -> %s (errors %s/%s), parser token %r (ok %s, %d left), read back %s %s" % (
+                    _why(b), " ".join("U+%04X" % c for c in r["cps"]), lf.b2s(r["esc"]), r["un"], r["eerr"], r["uerr"], lf.b2s(r["praw"]), r["pok"],
+                    r["prest"], r["lit"], r["msg"])
+                short = " ".join("U+%04X" % c for c in r["cps"])
+            elif r["kind"] == "file":
+                key = "%s|smallest=%s" % (cls(b), "-".join("%02x" % c for c in sm) or "empty")
+                what = "%s: name %r as dictionary %s of %s read back as %r %s" % (
+                    _why(b), lf.b2s(r["inp"]), r["role"], "an object in an object stream" if r["via"] == "objstm" else "a plain object",
+                    lf.b2s(r["got"]), r["msg"])
+                short = repr(lf.b2s(r["inp"]))
+            else:
+                key = "%s|smallest=%s" % (_why(b), "-".join("%02x" % c for c in sm) or "empty")
+                what = "%s: input %r escaped %r unescaped %r (errors %s/%s) parser token %r (ok %s, %d left) encoded %r decoded %r (error %s)" % (
+                    _why(b), lf.b2s(r["inp"]), lf.b2s(r["esc"]), lf.b2s(r["un"]), r["eerr"], r["uerr"], lf.b2s(r["praw"]), r["pok"], r["prest"],
+                    lf.b2s(r["enc"]), lf.b2s(r["dec"]), r["derr"])
+                short = repr(lf.b2s(r["inp"]))
+            classes.add(key, what, b, short=short)
         classes.report(ctx)
-        for s in samples[:2]:
+        for s in samples[:4]:
             ev.sample(s)
         ev.cov(evaluations=tot["cases"], distinct_nontrivial=tot["nontrivial"], traces_validated_against_impl=tot["validated"],
-               rule="every string of LexStr.tla's case space (jobs: %s) is one case, run through the real Escape/Unescape/EncodeName/DecodeName "
-                    "and judged by TLC (LexStrTrace!Fails); non-trivial = distinct inputs whose escaped or encoded form differs from the input"
+               rule="every case of LexStr.tla's case space (jobs: %s) is run through the real Escape/Unescape/EncodeName/DecodeName and the real literal "
+                    "string parser; text cases (code points chosen by their UTF-16BE bytes) also through EscapedUTF16String and its readers; name cases "
+                    "also as dictionary key and name value through a written+read PDF, once in an object stream, once as plain object; every record is "
+                    "judged by TLC (LexStrTrace!Fails); non-trivial = distinct inputs whose escaped or encoded form differs from the input"
                     % ", ".join(j[0] for j in jobs),
+               text_records=tot["text"], file_records=tot["file"], file_records_from_object_streams=tot["objstm"],
                exhaustive=True, distinct_inputs=tot["distinct"],
                interop_disagreements=tot["info"],
                interop_note="informational: records where a conforming reader (Lex!RefUnescape / Lex!RefDecodeName) would not recover the input")
